@@ -35,6 +35,9 @@ RULE = (
     "any module named in the input must be absent; no attribute named by the input is looked up "
     "on already-loaded sentinel modules (stdlib-named and not); no file opened for writing and no new/changed "
     "file in the scratch cwd other than the CLI's declared report; no canary marker. "
+    "Fresh-process shard: each of is_likely_safe / check_safety / stacked decompile+check / CLI / CLI --check-safety run "
+    "in an interpreter that imported only fickling, on files of every kind (torch zip and legacy saves, numpy "
+    "pickle and .npy, legacy tar, canary pickle / zip): no module of a package the file names may appear in sys.modules. "
     "Non-trivial = the input names >= 1 dangerous/canary global and parses (or is a corruption "
     "of such an input); distinct = distinct byte strings."
     ' Also: inputs of 1.3-9 MB through a non-seekable stream, 130-400 levels of nesting, names'
@@ -480,6 +483,14 @@ def judge(data, scratch):
 
 
 def replay(case):
+    if "fresh" in case:
+        entry, label = case["fresh"]
+        with Scratch("c01") as scratch:
+            for lab, path, named in fresh_inputs(scratch):
+                if lab == label:
+                    msg = observe_fresh(entry, path, named)
+                    return Failure(case, msg) if msg else None
+        return None
     with Scratch("c01") as scratch:
         if "big" in case:
             _warmup(scratch)
@@ -585,6 +596,78 @@ def _dumps(v, proto):
         return b"N."
 
 
+FRESH_ENTRIES = ("is_likely_safe", "check_safety", "stacked+ast", "cli", "cli --check-safety")
+
+
+def fresh_inputs(scratch):
+    """(label, path, module roots the file names) - files of every kind the library is pointed at"""
+    import tarfile
+    import warnings
+    import zipfile
+
+    import numpy
+    import torch
+
+    out = []
+
+    def add(label, blob_or_writer, named):
+        path = os.path.join(scratch.path, label)
+        if callable(blob_or_writer):
+            blob_or_writer(path)
+        else:
+            with open(path, "wb") as f:
+                f.write(blob_or_writer)
+        out.append((label, path, named))
+
+    with warnings.catch_warnings():
+        warnings.simplefilter("ignore")
+        add("model_zip.pt", lambda p: torch.save({"w": torch.zeros(2)}, p), ["torch"])
+        add("model_legacy.pt", lambda p: torch.save({"w": torch.zeros(2)}, p, _use_new_zipfile_serialization=False), ["torch"])
+    add("names_torch.pkl", b"ctorch\nload\n.", ["torch"])
+    add("array.pkl", pickle.dumps(numpy.arange(3), 2), ["numpy"])
+    add("array.npy", lambda p: numpy.save(p, numpy.array([{"a": 1}], dtype=object), allow_pickle=True), ["numpy"])
+    add("canary.pkl", b"cverif_canary\nfire\n(S'x'\ntR.", ["verif_canary"])
+
+    def canary_zip(p):
+        with zipfile.ZipFile(p, "w") as z:
+            z.writestr("archive/data.pkl", b"cverif_canary\nfire\n(S'x'\ntR.")
+            z.writestr("archive/version", b"3\n")
+
+    add("canary_zip.pt", canary_zip, ["verif_canary"])
+
+    def torch_tar(p):
+        with tarfile.open(p, "w") as t:
+            for name, blob in (("pickle", b"ctorch\nload\n."), ("storages", b"N."), ("tensors", b"N.")):
+                ti = tarfile.TarInfo(name)
+                ti.size = len(blob)
+                t.addfile(ti, io.BytesIO(blob))
+
+    add("legacy.tar", torch_tar, ["torch"])
+    return out
+
+
+def observe_fresh(entry, path, named):
+    """None or message: run one entry point on one file in a fresh interpreter; no module the file
+    names may be imported by it"""
+    import json
+    import subprocess
+    import sys
+
+    from vlib import env
+
+    child = os.path.join(os.path.dirname(os.path.abspath(__file__)), "c01_fresh.py")
+    pr = subprocess.run([sys.executable, child, env.REPO, env.HELPERS, entry, path], capture_output=True, text=True,
+                        cwd=os.path.dirname(path), timeout=900)  # fmt: skip
+    if pr.returncode != 0 or not pr.stdout.strip():
+        raise RuntimeError(f"fresh child failed ({pr.returncode}): {pr.stderr[-400:]}")
+    doc = json.loads(pr.stdout.strip().splitlines()[-1])
+    bad = sorted(m for m in doc["new"] if m.split(".")[0] in named and m.split(".")[0] not in doc["before_roots"])
+    if bad:
+        return (f"{entry} on {os.path.basename(path)} ({doc['outcome']}) in a fresh interpreter imported "
+                f"{len(bad)} modules of the packages the file names, e.g. {bad[:4]}")
+    return None
+
+
 def shards(tier):
     per = 200 if tier == "quick" else 4000
     out = [{"kind": "structured", "n": per, "idx": i} for i in range(12)]
@@ -595,11 +678,22 @@ def shards(tier):
     if tier != "quick":
         out += [{"kind": "atheris", "runs": runs, "corpus": "seeded", "idx": 2 + i} for i in range(6)]
     out += [{"kind": "archives", "n": 60 if tier == "quick" else 2000, "idx": i} for i in range(4)]
+    out += [{"kind": "fresh", "entry": e} for e in FRESH_ENTRIES]
     return out
 
 
 def run_shard(spec, seed):
     res = ShardResult()
+    if spec["kind"] == "fresh":
+        with Scratch("c01") as scratch:
+            for label, path, named in fresh_inputs(scratch):
+                msg = observe_fresh(spec["entry"], path, named)
+                res.note((spec["entry"], label), True, klass=["fresh-process", "fresh:" + spec["entry"]],
+                         sample={"fresh": [spec["entry"], label]})
+                if msg:
+                    res.failures.append(Failure({"fresh": [spec["entry"], label]}, msg))
+                    break
+        return res
     if spec["kind"] == "archives":
         from hypothesis import strategies as st
 
